@@ -57,6 +57,21 @@ def corpus_project():
     ]}
 
 
+def corpus_project2():
+    """hand-picked exit-code corner cases: 77 / 99 with and without should_fail, expected_exitcode, rust and gtest
+    protocols, a hostile name, a serial test of high priority"""
+    return {'tests': [
+        mk_test(0, codes=[77]),
+        mk_test(1, codes=[99], should_fail=True),
+        mk_test(2, codes=[77], should_fail=True, par=False, prio=10),
+        mk_test(3, codes=[0], should_fail=True, suites=['x', 'y']),
+        mk_test(4, codes=[3], expected_exitcode=3, mname="t4 it's \u00fc"),
+        mk_test(5, codes=[0], expected_exitcode=3),
+        mk_test(6, proto='rust', text='test a ... ok\n', codes=[0]),
+        mk_test(7, proto='gtest', codes=[99, 0], verbose=True),
+    ]}
+
+
 def gen_project(rng, adversarial=False):
     n = rng.randint(2, 8)
     pser = rng.choice([0.0, 0.2, 0.4, 0.7])
@@ -84,8 +99,17 @@ def gen_project(rng, adversarial=False):
              'sleep': '30' if will_timeout else '%.2f' % (ms / 1000.0), 'codes': codes, 'will_timeout': will_timeout,
              'expected_exitcode': 3 if (proto == 'exitcode' and rng.random() < 0.08) else None,
              'text': rng.choice(TAP_TEXTS + sorted(O.TAP_KINDS.values()) * 2) if proto == 'tap' else rng.choice(RUST_TEXTS) if proto == 'rust' else ''}
+        if rng.random() < 0.3:
+            t['mname'] = t['name'] + rng.choice([' x', '\u00fc', "'q", '+', '#1', '.sh', ' \u00e9 \u00fc', '"d"', '$HOME', '\\n'])
+        if rng.random() < 0.15:
+            t['verbose'] = True
         tests.append(t)
     return {'tests': tests}
+
+
+def mname(t):
+    """the name in meson.build (may hold blanks, quotes, non-ASCII); t['name'] is the id the script logs"""
+    return t.get('mname', t['name'])
 
 
 def meson_build(proj):
@@ -104,7 +128,9 @@ def meson_build(proj):
             kw.append('protocol: %s' % q(t['proto']))
         if t['expected_exitcode'] is not None:
             kw.append('expected_exitcode: %d' % t['expected_exitcode'])
-        out.append("test(%s, sh, %s)" % (q(t['name']), ', '.join(kw)))
+        if t.get('verbose'):
+            kw.append('verbose: true')
+        out.append("test(%s, sh, %s)" % (q(mname(t)), ', '.join(kw)))
     return '\n'.join(out) + '\n'
 
 
@@ -130,17 +156,21 @@ def gen_invocation(rng, proj):
     elif k < 0.3:
         inv['exclude_suites'] = [rng.choice(['x', 'y', 'p:x', ':y'])]
     elif k < 0.4:
-        inv['exclude'] = [rng.choice(['t0', 't1', 'p:t1'])]
+        inv['exclude'] = [rng.choice([mname(proj['tests'][0]), mname(proj['tests'][1]), 'p:' + mname(proj['tests'][1])])]
     elif k < 0.48:
-        inv['args'] = sorted(set(rng.choice(['t0', 't1', 't2', 'p:t1', ':t0']) for _ in range(2)))
+        m0, m1, m2 = (mname(proj['tests'][min(i, n - 1)]) for i in range(3))
+        inv['args'] = sorted(set(rng.choice([m0, m1, m2, 'p:' + m1, ':' + m0]) for _ in range(2)))
     elif k < 0.72:
         # overlapping test-name arguments: the same test is matched by several of them
-        a = 't%d' % rng.randrange(n)
+        a = mname(proj['tests'][rng.randrange(n)])
         inv['args'] = rng.choice([[a, 't*'], ['p:' + a, a, '*' + a[1:]], ['p:', a], [a, a], [':' + a, a], ['t?', a],
-                                  ['*', 'p:*'], [a, 'p:t*', '?' + a[1:]]])
+                                  ['*', 'p:*'], [a, 'p:t*', '?' + a[1:]], [a, '[t]' + a[1:]], ['t[!x]*', a], ['[p]:' + a, '[!q]:t*']])
     if rng.random() < 0.3:
         m = rng.randint(1, min(n, 4))
         inv['slice'] = '%d/%d' % (rng.randint(1, m), m)
+    # console options (must not change what runs nor the totals)
+    inv['flags'] = rng.choice([[], [], [], ['--verbose'], ['--quiet'], ['--print-errorlogs'], ['--no-stdsplit'],
+                               ['--print-errorlogs', '--no-stdsplit'], ['--verbose', '--print-errorlogs']])
     return inv
 
 
@@ -154,7 +184,7 @@ def sel_flags(inv):
         a += ['--exclude', s]
     if inv['slice']:
         a += ['--slice', inv['slice']]
-    return a + list(inv['args'])
+    return a + list(inv.get('flags') or []) + list(inv['args'])
 
 
 def command_line(inv, k=0):
@@ -232,7 +262,7 @@ def parse_list(out):
 
 
 def tdef_str(t):
-    return SEP2.join([t['name'], 'p', SEP3.join(['p:' + s for s in t['suites']] or ['p'])])
+    return SEP2.join([mname(t), 'p', SEP3.join(['p:' + s for s in t['suites']] or ['p'])])
 
 
 def run_cli(ctx, built, thorough, only=None):
@@ -243,7 +273,7 @@ def run_cli(ctx, built, thorough, only=None):
     if only is not None:
         projs = [only['project']]
     else:
-        projs = [corpus_project()] + [gen_project(rng, adversarial=(thorough and i % 2 == 1) or (not thorough and i == 5)) for i in range(1, nproj)]
+        projs = [corpus_project(), corpus_project2()] + [gen_project(rng, adversarial=(thorough and i % 2 == 1) or (not thorough and i == 5)) for i in range(2, nproj)]
     dirs = [os.path.join(scratch, 'proj%d' % i) for i in range(len(projs))]
     setups = pmap(lambda a: write_project(*a), list(zip(dirs, projs)))
     for r, d in zip(setups, dirs):
@@ -268,6 +298,7 @@ def run_cli(ctx, built, thorough, only=None):
             jobs.append((pi, k, inv, True))
     obs = pmap(lambda j: run_invocation(dirs[j[0]], j[1], j[2], j[3]), jobs)
     probe_reported = set()
+    result_cov = {}
 
     # slice partition through the CLI (--list --slice i/n for all i)
     slice_jobs = []
@@ -338,12 +369,13 @@ def run_cli(ctx, built, thorough, only=None):
         # ---------- selection: what `meson test --list` with the same selection options prints
         # (the implementation's own answer) is what the oracle uses; the model's selection is
         # compared with it
-        listed = [x.split(':', 1)[1] for x in parse_list(ob['list'][1]) if ':' in x]
+        idof = {mname(t): t['name'] for t in proj['tests']}
+        listed = [idof.get(x.split(':', 1)[1], x.split(':', 1)[1]) for x in parse_list(ob['list'][1]) if ':' in x]
         impl_sel_err = ob['list'][0] != 0 and not listed and ob['rc'] != 0 and not ob['events']
         if built:
             ms = mout2[plan[ji]['select']]
             msel_err = ms == 'ERR'
-            msel = [x.split(':', 1)[1] for x in ms[1:].split(SEP2)] if (not msel_err and ms[1:]) else []
+            msel = [idof.get(x.split(':', 1)[1], x.split(':', 1)[1]) for x in ms[1:].split(SEP2)] if (not msel_err and ms[1:]) else []
             if msel_err != impl_sel_err and (msel_err or listed):
                 ctx.disagreements.append({'cli': rep_base['cli'], 'what': 'model: selection %s; meson test exit %r, --list exit %r prints %r'
                                           % ('is an error' if msel_err else msel, ob['rc'], ob['list'][0], listed)})
@@ -352,13 +384,13 @@ def run_cli(ctx, built, thorough, only=None):
         # ---------- the selection computed from the command line alone (no meson code, no model):
         # the SET of tests surviving the suite / exclude filters and matched by ANY test-name argument
         ser_py = sorted(proj['tests'], key=lambda t: -t['prio'])
-        base = O.independent_selection([(t['name'], 'p', ['p:' + x for x in t['suites']] or ['p']) for t in ser_py], 'p',
+        base = O.independent_selection([(mname(t), 'p', ['p:' + x for x in t['suites']] or ['p']) for t in ser_py], 'p',
                                        inv['include'], inv['exclude_suites'], inv['exclude'], inv['args'], None)
         if base is None:
             if ob['events']:
                 viol('a test-name argument matches no test, yet tests were started: %r' % ob['events'][:6])
             continue
-        base = [n for _, n in base]
+        base = [idof[n] for _, n in base]
         if inv['slice']:
             i_, k_ = (int(x) for x in inv['slice'].split('/'))
             if k_ > len(base):
@@ -385,8 +417,24 @@ def run_cli(ctx, built, thorough, only=None):
         pos = {n: i for i, n in enumerate(selected)}
         R = inv['repeat']
         results = [e['result'] for e in ob['testlog']]
+        for e_ in ob['testlog']:
+            n_ = e_['name'].split(' - ')[-1].split(':', 1)[-1]
+            t_ = byname.get(idof.get(n_, n_))
+            if t_:
+                result_cov[(t_['proto'], e_['result'])] = result_cov.get((t_['proto'], e_['result']), 0) + 1
         failc = sum(1 for r in results if r in ('FAIL', 'ERROR', 'INTERRUPT'))
         cut = (inv['maxfail'] > 0 and failc >= inv['maxfail']) or (R > 1 and failc > 0)
+        # ---------- oracle: higher priority first (in the listing; in the start records when there is one job)
+        prio = {t['name']: t['prio'] for t in proj['tests']}
+        pb = O.priority_clauses([n for n in listed if n in prio], prio)
+        if pb:
+            viol('--list order: ' + '; '.join(pb[:3]), {'listed': listed})
+        if inv['jobs'] == 1:
+            for it in range(1, R + 1):
+                st = [e[1] for e in ob['events'] if e[0] == 's' and int(e[2]) == it and e[1] in prio]
+                pb = O.priority_clauses(st, prio)
+                if pb:
+                    viol('start order with one job, repetition %d: %s' % (it, '; '.join(pb[:3])), {'starts': st})
         # ---------- oracle: every selected test has exactly `repeat` start records
         for b in O.start_count_clauses(selected, R, [(e[1], int(e[2])) for e in ob['events'] if e[0] == 's'], cut):
             viol('start records: ' + b, {'start_records': [' '.join(e) for e in ob['events'] if e[0] == 's'], 'selected': selected})
@@ -411,15 +459,13 @@ def run_cli(ctx, built, thorough, only=None):
         tl = {}
         for e in ob['testlog']:
             nm = e['name'].split(' - ')[-1].split(':', 1)[1]
+            nm = idof.get(nm, nm)
             key = (nm, e['it'])
             if key in tl:
                 viol('testlog.json reports %s iteration %d twice' % key)
             tl[key] = e
             if nm not in pos:
                 viol('testlog.json reports unselected test %s' % nm)
-        results = [e['result'] for e in ob['testlog']]
-        failc = sum(1 for r in results if r in ('FAIL', 'ERROR', 'INTERRUPT'))
-        cut = (inv['maxfail'] > 0 and failc >= inv['maxfail']) or (R > 1 and failc > 0)
         par_decl = [byname[n]['par'] for n in selected] * R
         # ---------- oracle: scheduling clauses on the log written by the tests themselves
         for b in O.trace_clauses(par_decl, inv['jobs'], fixed, cut):
@@ -520,7 +566,8 @@ def run_cli(ctx, built, thorough, only=None):
     # ---------- slices through --list
     byproj = {}
     for (pi, n, i), r in zip(slice_jobs, slice_obs):
-        byproj.setdefault((pi, n), {})[i] = [x.split(':', 1)[1] for x in parse_list(r.stdout)] if r.returncode == 0 else None
+        idof_p = {mname(t): t['name'] for t in projs[pi]['tests']}
+        byproj.setdefault((pi, n), {})[i] = [idof_p.get(x.split(':', 1)[1], x.split(':', 1)[1]) for x in parse_list(r.stdout)] if r.returncode == 0 else None
     for (pi, n), sl in byproj.items():
         ctx.count(('cli-slice', pi, n))
         names = [t['name'] for t in order[pi]]
@@ -529,6 +576,52 @@ def run_cli(ctx, built, thorough, only=None):
         for b in O.slice_clauses(names, [sl[i] for i in range(1, n + 1)]):
             ctx.violation('C12:cli-slice:%d:%s' % (n, meson_build(projs[pi])), '--slice i/%d over %r: %s' % (n, names, b),
                           {'cli': {'project': projs[pi], 'invocation': {'slice_n': n}}, 'failure': b})
+    # coverage table: which shapes were generated how often (gaps show as zeros)
+    from collections import Counter
+    cov = Counter()
+    for proj in projs:
+        for t in proj['tests']:
+            cov['test:protocol=' + t['proto']] += 1
+            cov['test:is_parallel=false'] += (not t['par'])
+            cov['test:should_fail'] += bool(t['should_fail'])
+            cov['test:timeout(will time out)'] += bool(t['will_timeout'])
+            cov['test:priority!=0'] += (t['prio'] != 0)
+            cov['test:suite kw'] += bool(t['suites'])
+            cov['test:expected_exitcode'] += (t['expected_exitcode'] is not None)
+            cov['test:verbose kw'] += bool(t.get('verbose'))
+            cov['test:hostile name (blank/quote/non-ASCII/...)'] += ('mname' in t)
+            cov['test:exit by signal'] += any(isinstance(c, str) for c in t['codes'])
+            cov['test:exit code differs per repetition'] += (len(set(map(str, t['codes']))) > 1)
+            if t['proto'] == 'tap':
+                cov['tap:stream=' + O.TAP_KIND_OF.get(t['text'], 'other')] += 1
+                cov['tap:skip-only/empty stream with non-zero exit'] += (O.TAP_KIND_OF.get(t['text']) in ('allskip', 'planskip', 'empty')
+                                                                        and any(code_rc(c) != 0 for c in t['codes']))
+    for (pi, k, inv, wl) in jobs:
+        cov['run:total'] += 1
+        cov['run:jobs=1'] += (inv['jobs'] == 1)
+        cov['run:jobs>tests'] += (inv['jobs'] > len(projs[pi]['tests']))
+        cov['run:repeat>1'] += (inv['repeat'] > 1)
+        cov['run:maxfail>0'] += (inv['maxfail'] > 0)
+        cov['run:repeat>1 and maxfail>0'] += (inv['repeat'] > 1 and inv['maxfail'] > 0)
+        cov['run:--suite'] += bool(inv['include'])
+        cov['run:--no-suite'] += bool(inv['exclude_suites'])
+        cov['run:--exclude'] += bool(inv['exclude'])
+        cov['run:name arguments'] += bool(inv['args'])
+        cov['run:name arguments with glob'] += any(c in a for a in inv['args'] for c in '*?')
+        cov['run:name arguments with bracket expression'] += any('[' in a for a in inv['args'])
+        cov['run:>=2 name arguments'] += (len(inv['args']) >= 2)
+        cov['run:--slice'] += bool(inv['slice'])
+        cov['run:--slice with other selection'] += bool(inv['slice'] and (inv['args'] or inv['include'] or inv['exclude_suites'] or inv['exclude']))
+        for f in inv.get('flags') or []:
+            cov['run:' + f] += 1
+        cov['run:jobs from environment variables'] += bool(inv.get('env'))
+        cov['run:non-positive -j (must be rejected)'] += bool(inv.get('probe'))
+    for (nm_, res_), c_ in sorted(result_cov.items()):
+        cov['result:%s:%s' % (nm_, res_)] = c_
+    ctx.extra['cli_coverage'] = {k_: int(v_) for k_, v_ in sorted(cov.items())}
+    ctx.extra['cli_not_generated'] = ['benchmark() / --benchmark', 'add_test_setup / --setup', '--wrapper / --gdb / --interactive',
+                                      'subprojects (only in-process selections use a second project)', 'ranges (a-z) inside bracket expressions of name arguments',
+                                      '--test-args', 'workdir / env / depends kwargs']
     ctx.extra['cli_runs'] = nruns
     ctx.extra['cli_projects'] = len(projs)
     ctx.extra['cli_slice_partitions'] = len(byproj)
